@@ -130,8 +130,15 @@ def gen_registry(rng, n_classes=None, n_methods=None, shapes=None, max_defs=6, a
         defs = []
         nd = rng.randint(0, min(max_defs, MAX_DEFS))
         seen = set()
+        anc = ancestors(r.parents)
+        # half of the methods: definitions that are all applicable to one target tuple (overlapping,
+        # often incomparable: ambiguity, non-transitive specificity and long next chains are common)
+        target = tuple(rng.choice(desc[v]) for v in vp) if rng.random() < 0.5 else None
         for j in range(nd):
-            t = tuple(rng.choice(desc[v]) for v in vp)
+            if target is not None and rng.random() < 0.85:
+                t = tuple(rng.choice([c for c in ([tc] + sorted(anc[tc])) if c in desc[v]]) for tc, v in zip(target, vp))
+            else:
+                t = tuple(rng.choice(desc[v]) for v in vp)
             if t in seen and rng.random() < 0.9:
                 continue
             seen.add(t)
